@@ -26,7 +26,6 @@ package mqttproxy
 import (
 	"fmt"
 	"net"
-	"runtime"
 	"strings"
 	"sync"
 	"sync/atomic"
@@ -63,17 +62,11 @@ type vfC17ObjCli struct {
 
 // vfC17ObjTeardownsPending: is a goroutine of Broker.close's teardown still around (running, or created
 // and not yet started)?
-func vfC17ObjTeardownsPending() bool {
-	var buf []byte
-	for size := 1 << 20; ; size *= 8 {
-		buf = make([]byte, size)
-		if n := runtime.Stack(buf, true); n < size || size >= 1<<28 {
-			buf = buf[:n]
-			break
-		}
-	}
-	for _, g := range strings.Split(string(buf), "\n\n") {
-		for _, l := range strings.Split(g, "\n")[1:] {
+func vfC17ObjTeardownsPending() bool { return vfC17ObjTeardownsPendingIn(vfC17Goroutines()) }
+
+func vfC17ObjTeardownsPendingIn(gs []vfC17Gor) bool {
+	for _, gor := range gs {
+		for _, l := range strings.Split(gor.raw, "\n")[1:] {
 			if strings.HasPrefix(l, "\t") {
 				continue
 			}
@@ -218,6 +211,37 @@ func TestVerifC17MqttProxyObject(t *testing.T) {
 				}
 				all = kept
 				logf("census %s: connected (2x PINGRESP) %v", when, served)
+				if len(served) > lane.Cap && inconclusive == "" {
+					// About to report. First the stable confirmation: over 5 snapshots / 5 s nothing of the
+					// broker (or of this harness) is runnable and no teardown is pending - then everybody
+					// is asked again; only who still answers twice counts.
+					_, note := vfC17Stable(nil, func(gs []vfC17Gor) string {
+						if vfC17ObjTeardownsPendingIn(gs) {
+							return ""
+						}
+						return "quiet"
+					})
+					if !strings.HasPrefix(note, "confirmed") {
+						inconclusive = "more clients than the cap answer PINGREQ, but the process did not become quiet for the confirmation: " + note
+						return
+					}
+					served = served[:0]
+					kept := all[:0]
+					for _, c := range all {
+						s, ok := vfC17ObjServed(c.conn)
+						if !ok {
+							inconclusive = "no answer to PINGREQ of " + c.id + " on an open socket"
+						}
+						if s {
+							served = append(served, c.id)
+							kept = append(kept, c)
+						} else {
+							vfC17HardClose(c.conn)
+						}
+					}
+					all = kept
+					logf("census repeated after %s: connected %v", note, served)
+				}
 				if len(served) > lane.Cap && inconclusive == "" {
 					old := 0
 					for _, c := range all {
